@@ -103,7 +103,7 @@ def show_expr(e, lvl, holes, concrete, prec=0):
     if k == "str": return '"%s"' % e[1]
     if k == "bool": return "true" if e[1] else "false"
     if k == "nil": return "nil"
-    if k == "hole": return holes.literal(e[1], e[2], concrete)
+    if k == "hole": return "?%s" % e[1] if e[2] == "int" else "?%s:%s" % (e[1], e[2])
     if k == "var": return e[1]
     if k == "paren": return "(" + E(e[1]) + ")"
     if k == "bin":
@@ -172,3 +172,21 @@ def pr(e): return ("expr", call("print", e))
 def ife(*arms): return ("if", list(arms))
 def ex(e): return ("expr", e)
 def asg(t, e, op="="): return ("assign", t, op, e)
+
+
+import re as _re
+_HOLE = _re.compile(r"\?([a-z_][a-z0-9_]*)(?::(str|float|int))?")
+
+
+def render(text, concrete=None):
+    """template text with ?hole markers -> (Sylt source with placeholder or concrete literals, Holes)"""
+    holes = Holes()
+    def sub(m):
+        return holes.literal(m.group(1), m.group(2) or "int", concrete)
+    # comments may not contain markers
+    return _HOLE.sub(sub, text), holes
+
+
+def to_text(prog):
+    """AST -> template text (holes as markers)"""
+    return show_program(prog)[0]
